@@ -237,8 +237,8 @@ func (s *Sim) runOp(op *Op) {
 		}()
 		if op.CancelAtYield > 0 {
 			s.armYieldCancel(op)
-			defer s.disarmYieldCancel(op)
 		}
+		defer s.disarmYieldCancel(op)
 		res, err = op.Run(op.ctx)
 	}()
 	s.mu.Lock()
@@ -251,6 +251,15 @@ func (s *Sim) runOp(op *Op) {
 func (s *Sim) armYieldCancel(op *Op) {
 	s.yieldMu.Lock()
 	op.yieldLeft = op.CancelAtYield
+	s.armed = append(s.armed, op)
+	s.yieldMu.Unlock()
+}
+
+// ArmYieldCancel (root goroutine) makes the yield hook cancel op's context at the k-th yield point
+// from now on, e.g. right before a reply for op is delivered.
+func (s *Sim) ArmYieldCancel(op *Op, k int) {
+	s.yieldMu.Lock()
+	op.yieldLeft = k
 	s.armed = append(s.armed, op)
 	s.yieldMu.Unlock()
 }
